@@ -400,6 +400,9 @@ def _norm_field(e):
         if e[2] == 0:
             return ('bin', e[1][1][:-len('WithOverflow')], e[1][2], e[1][3])
         return ('ovf', e[1][1][:-len('WithOverflow')], e[1][2], e[1][3])
+    # a component of a tuple built on the spot (`let (a, b) = (x, y);`) is that component
+    if e[0] == 'field' and isinstance(e[1], tuple) and e[1] and e[1][0] == 'agg' and e[1][1] == 'tuple' and isinstance(e[2], int) and e[2] < len(e[1][2]):
+        return e[1][2][e[2]]
     return e
 
 
